@@ -15,14 +15,15 @@ ap = argparse.ArgumentParser()
 ap.add_argument('id'); ap.add_argument('prop'); ap.add_argument('patch'); ap.add_argument('demo'); ap.add_argument('note')
 ap.add_argument('--checks', default=None); ap.add_argument('--skip-tests', action='store_true')
 ap.add_argument('--tier', default='quick')
+ap.add_argument('--base', default='HEAD', help='commit of /repo the patch was written against')
 a = ap.parse_args()
 out = '/verif/seeded/%s' % a.id
 os.makedirs(out, exist_ok=True)
 shutil.copy(a.patch, out + '/patch.diff'); shutil.copy(a.demo, out + '/demo.py'); shutil.copy(a.note, out + '/note.txt')
 wt = tempfile.mkdtemp(prefix='nvseed_', dir='/tmp')
 os.rmdir(wt)
-subprocess.check_call(['git', '-C', '/repo', 'worktree', 'add', '-q', '--detach', wt, 'HEAD'])
-meta = dict(id=a.id, property=a.prop, repo_head=subprocess.check_output(['git', '-C', '/repo', 'rev-parse', '--short', 'HEAD'], text=True).strip())
+subprocess.check_call(['git', '-C', '/repo', 'worktree', 'add', '-q', '--detach', wt, a.base])
+meta = dict(id=a.id, property=a.prop, repo_head=subprocess.check_output(['git', '-C', '/repo', 'rev-parse', '--short', a.base], text=True).strip())
 try:
     def demo(tree):
         p = subprocess.run(['/venv/bin/python', out + '/demo.py'], env=dict(os.environ, PYTHONPATH=tree), cwd=tree,
